@@ -219,7 +219,11 @@ routine:
 			break routine
 		}
 		conn.maintainKeepalive()
-		conn.recvCh <- data
+		select {
+		case conn.recvCh <- data:
+		case <-conn.ctx.Done():
+			break routine
+		}
 	}
 }
 
